@@ -612,8 +612,8 @@ PROPS["C05"] = dict(
     explanation="unbounded contract clauses: maxGridDiskSize == min(3k(k+1)+1, cells at res 15) / E_DOMAIN; gridRingUnsafe writes stay inside "
                 "6k slots for every k (loop contracts), negative k refused; the hash-set insertion of the safe disk probes only inside the "
                 "maxGridDiskSize slots (recursive contract); areNeighborCells error codes and 'a positive answer comes from the sibling "
-                "shortcut or from the 1-disk'; gridDisksUnsafe succeeds only if every per-cell disk succeeded. BOUNDED (never counted as "
-                "proved): the neighbour step on all valid cells of resolution <= 1 (quick) / <= 2 (thorough) is total, yields valid "
+                "shortcut or from the 1-disk'; BOUNDED (never counted as proved): gridDisksUnsafe succeeds only if every "
+                "per-cell disk succeeded (<= 3 input cells); gridDiskDistancesUnsafe has no arithmetic overflow for k <= 30000; the neighbour step on all valid cells of resolution <= 1 (quick) / <= 2 (thorough) is total, yields valid "
                 "same-resolution cells, E_PENTAGON exactly for (pentagon, K), is symmetric and injective in the direction.",
     trusted_base=["h3NeighborRotations is a frame-only / uninterpreted contract in the unbounded jobs; its concrete behaviour is only checked bounded"],
     not_decided=["gridDisk* return exactly the BFS ball with exact distances, without duplicates, for all k (hash-set contents over an unbounded array)",
@@ -751,3 +751,13 @@ J(name="c17.iterStepPolygonCompact", props=["C17", "C15"], harness="c17b.c", ent
               inv="0 <= res && res <= 15 && res == S_RES(cell) && res <= __CPROVER_loop_entry(res)", dec="res")])
 
 J(name="c19.pentagons.enum", props=["C19"], harness="c19.c", entry="h_pentagon_faces_enum", unwind=20, timeout=1800, tier="never")  # concrete enumeration still > 30 min
+
+J(name="c05.gridDisksUnsafe.b3", props=["C05"], harness="c05.c", entry="h_gridDisksUnsafe", enforce=["gridDisksUnsafe/gridDisksUnsafe_b3"],
+  replace=["gridDiskUnsafe/gridDiskUnsafe_w", "maxGridDiskSize/maxGridDiskSize_ghost"], unwind=5,
+  bound_note="at most 3 input cells, segment size 7 (k = 1): error propagation across the input cells",
+  replay=dict(fn="gridDisksUnsafe", args=[]))
+
+for lres, tier in ((0, "never"), (1, "never"), (2, "never")):   # out of memory even at resolution 0 (nested rotation loops): parked
+    J(name="c09.localIjkToCell.res%d" % lres, props=["C09", "C12"], harness="c12.c", entry="h_localIjkToCell_res", defs=["LRES=%d" % lres],
+      enforce=["localIjkToCell/localIjkToCell_safe"], replace=["_upAp7Checked", "_upAp7rChecked"], unwind=17, timeout=1200, tier=tier,
+      bound_note="origin resolution fixed to %d; all 64-bit origins of that resolution, all non-negative int32 IJK: memory safety and arithmetic" % lres)
